@@ -1032,9 +1032,18 @@ struct Gen{
             p.opts = {s.sp("-tolerance"), num17(tol), s.sp("-reftype"), refname(rt)};
             if (!float_exact(tol)) p.real_opts.push_back("tolerance");
             if (pass_out){ p.opts.push_back(s.sp("-refout")); p.opts.push_back(std::to_string(out)); }
-            p.api = [tol, rt, out, limits](TasmanianSparseGrid &g, Out &o, bool as_float){
+            std::vector<double> scale;
+            if (G().isLocalPolynomial() && G().getNumLoaded() > 0 && rng.coin(0.2)){
+                // the optional scale correction of the local polynomial candidates: one weight per loaded point and active output
+                int act = (out == -1) ? m : 1, n = G().getNumLoaded();
+                scale.resize((size_t) n * (size_t) act);
+                for(auto &x : scale) x = rng.coin(0.3) ? 0.0 : rng.uni(0.2, 3.0);
+                p.opts.push_back(s.sp("-valsfile")); p.opts.push_back(s.put(Mat(n, act, scale), "scale"));
+                p.name += "-scaled";
+            }
+            p.api = [tol, rt, out, limits, scale](TasmanianSparseGrid &g, Out &o, bool as_float){
                 if (!g.isUsingConstruction()) g.beginConstruction();
-                o.m = points_matrix(g, g.getCandidateConstructionPoints(fl(tol, as_float), rt, out, limits)); };
+                o.m = points_matrix(g, g.getCandidateConstructionPoints(fl(tol, as_float), rt, out, limits, scale)); };
         }
         if (!limits.empty()){ p.opts.push_back(s.sp("-levellimitsfile")); p.opts.push_back(s.put(row_of_ints(limits), "limits")); }
         return p;
@@ -1233,7 +1242,7 @@ void mon_c16(CaseCtx &c, Rng &rng){
         for(int i=0; i<nsteps && !s.dead && s.has_grid; i++){
             Plan p;
             if (!gen.next(p)) break;
-            bool is_candidates = (p.name == "getconstructpnts");
+            bool is_candidates = (p.name == "getconstructpnts" || p.name == "getconstructpnts-scaled");
             bool is_setconf = (p.name == "setconformal");
             int before = s.compared;
             s.exec(p);
